@@ -395,8 +395,10 @@ func blockStringValue(in string) string {
 		}
 	}
 	if commonIndent > 0 {
-		for i, line := range lines {
+		for i := 1; i < len(lines); i++ {
+			line := lines[i]
 			if commonIndent > len(line) {
+				lines[i] = ""
 				continue
 			}
 			lines[i] = line[commonIndent:]
